@@ -44,42 +44,70 @@ XSD_LEXICAL = {
 }
 
 
+from . import xsd_oracle as _O
+_D2, _YL = '[0-9]{2}', '-?[0-9]{4,}'
+_TZ = _O.TZ + '?'
+_TL = f'{_D2}:{_D2}:{_D2}(?:\\.[0-9]+)?'
+# class -> (regular language that must be accepted, regular language that must not be exceeded); equal = exact lexical space.
+# For the date/time classes the pattern only fixes the shape (two-digit fields): ranges are enforced by the constructor
+# (lexical_space_grid), so the upper bound is the XSD shape with unconstrained digits.
+LEX_LANGS = {
+    'Float': (D.Float, XSD_LEXICAL['Float'], None), 'DoubleProxy': (proxies.DoubleProxy, XSD_LEXICAL['DoubleProxy'], None),
+    'DecimalProxy': (proxies.DecimalProxy, XSD_LEXICAL['DecimalProxy'], None), 'Integer': (D.Integer, XSD_LEXICAL['Integer'], None),
+    'BooleanProxy': (proxies.BooleanProxy, XSD_LEXICAL['BooleanProxy'], None), 'HexBinary': (D.HexBinary, XSD_LEXICAL['HexBinary'], None),
+    'Language': (D.Language, XSD_LEXICAL['Language'], None),
+    'GregorianDay': (D.GregorianDay, _O.LEXICAL['gDay'], f'---{_D2}{_TZ}'), 'GregorianMonth': (D.GregorianMonth, _O.LEXICAL['gMonth'], f'--{_D2}{_TZ}'),
+    'GregorianMonthDay': (D.GregorianMonthDay, _O.LEXICAL['gMonthDay'], f'--{_D2}-{_D2}{_TZ}'),
+    'GregorianYear': (D.GregorianYear, _O.LEXICAL['gYear'], f'{_YL}{_TZ}'),
+    'GregorianYearMonth': (D.GregorianYearMonth, _O.LEXICAL['gYearMonth'], f'{_YL}-{_D2}{_TZ}'),
+    'Date': (D.Date, _O.LEXICAL['date'], f'{_YL}-{_D2}-{_D2}{_TZ}'), 'Time': (D.Time, _O.LEXICAL['time'], f'{_TL}{_TZ}'),
+    'DateTime': (D.DateTime, _O.LEXICAL['dateTime'], f'{_YL}-{_D2}-{_D2}T{_TL}{_TZ}'),
+    'DateTimeStamp': (D.DateTimeStamp, _O.LEXICAL['dateTimeStamp'], f'{_YL}-{_D2}-{_D2}T{_TL}{_O.TZ}'),
+    'Duration': (D.Duration, _O.LEXICAL['duration'], None),
+    'Base64Binary': (D.Base64Binary, _O.LEXICAL['base64Binary'], None),
+    'NCName': (D.NCName, _O.LEXICAL['NCName'], None), 'Name': (D.Name, _O.LEXICAL['Name'], None), 'NMToken': (D.NMToken, _O.LEXICAL['NMTOKEN'], None),
+    'QName': (D.QName, _O.LEXICAL['QName'], None),
+    'XsdToken': (D.XsdToken, r'[^ \t\n\r]+(?: [^ \t\n\r]+)*|', None), 'NormalizedString': (D.NormalizedString, r'[^\t\n\r]*', None),
+}
+
+
 def ground_lexical_spaces(tier, seed):
     fails, n, und = [], 0, []
-    classes = {'Float': D.Float, 'DoubleProxy': proxies.DoubleProxy, 'DecimalProxy': proxies.DecimalProxy, 'Integer': D.Integer,
-               'BooleanProxy': proxies.BooleanProxy, 'HexBinary': D.HexBinary, 'Language': D.Language,
-               'GregorianDay': D.GregorianDay, 'GregorianMonth': D.GregorianMonth, 'GregorianMonthDay': D.GregorianMonthDay}
-    for name, cls in classes.items():
+    for name, (cls, lower, upper) in LEX_LANGS.items():
         pat = cls.pattern.pattern
+        if not pat.startswith('^'):
+            pat = '^(?:' + pat + ')$'          # Base64Binary.validate compares match.group(0) with the whole value
         try:
             code = regex2z3.translate(pat)
-            spec = regex2z3.translate('^(?:' + XSD_LEXICAL[name] + ')$')
+            lo = regex2z3.translate('^(?:' + lower + ')$')
+            hi = regex2z3.translate('^(?:' + upper + ')$') if upper else lo
         except regex2z3.Unsupported as e:
             und.append(f'{name}: {e}')
             continue
-        for direction, a, b in (('accepts a string outside the XSD lexical space', code, spec),
-                                ('rejects a string of the XSD lexical space', spec, code)):
+        for direction, a, b in (('accepts a string outside the XSD lexical ' + ('shape' if upper else 'space'), code, hi),
+                                ('rejects a string of the XSD lexical space', lo, code)):
             n += 1
-            w = regex2z3.language_difference(a, b)
+            w = regex2z3.language_difference(a, b, ascii_only=True)
             if w == 'unknown':
                 und.append(f'{name}: {direction}: solver timeout')
             elif w is not None:
-                real = cls.pattern.match(w) is not None
-                fails.append({'key': f'{name} pattern {direction}', 'class': name, 'witness': w,
-                              'what': f'{cls.__module__}.{name}.pattern {direction}: {w!r} (pattern.match says {real})'})
+                fails.append({'key': f'{name} pattern {direction}', 'class': name, 'witness': w, 'lower': direction.startswith('rejects'),
+                              'what': f'{cls.__module__}.{name}.pattern {direction}: {w!r}'})
     return {'obligations': n, 'discharged': n - len(fails), 'evaluations': n, 'distinct': n, 'exhaustive': True, 'count_each': True,
-            'undecided': und, 'scope': f'{len(classes)} datatype classes: L(live pattern) == L(XSD lexical space) as two z3 regular-'
-            'language inclusion queries each (patterns with \\\\w/\\\\d/look-aheads are not translated: see bounded)', 'failures': fails}
+            'undecided': und, 'scope': f'{len(LEX_LANGS)} datatype classes: L(XSD lexical space) <= L(live pattern) <= L(XSD lexical shape) over all ASCII '
+            'strings, as z3 regular-language inclusion queries on the translated stdlib parse tree of the live pattern (look-aheads as intersections; '
+            '\\d \\w \\s read on ASCII: non-ASCII name characters are outside these obligations)', 'failures': fails}
 
 
 def _replay_lex(f):
     import re
-    cls = {'Float': D.Float, 'DoubleProxy': proxies.DoubleProxy, 'DecimalProxy': proxies.DecimalProxy, 'Integer': D.Integer,
-           'BooleanProxy': proxies.BooleanProxy, 'HexBinary': D.HexBinary, 'Language': D.Language, 'GregorianDay': D.GregorianDay,
-           'GregorianMonth': D.GregorianMonth, 'GregorianMonthDay': D.GregorianMonthDay}[f['class']]
-    in_code = cls.pattern.match(f['witness']) is not None
-    in_spec = re.fullmatch(XSD_LEXICAL[f['class']], f['witness']) is not None
-    return in_code == in_spec
+    cls, lower, upper = LEX_LANGS[f['class']]
+    w = f['witness']
+    m = cls.pattern.match(w)
+    in_code = m is not None and (cls.pattern.pattern.startswith('^') or m.group(0) == w)
+    if f.get('lower'):
+        return in_code or re.fullmatch(lower, w) is None
+    return not in_code or re.fullmatch(upper or lower, w) is not None
 
 
 GROUND = [Bounded('lexical_spaces_as_regular_languages', ground_lexical_spaces, _replay_lex)]
@@ -125,7 +153,7 @@ LEX_SEEDS = list(dict.fromkeys([
     '1 0', 'true', 'false', 'True', 'TRUE', 'yes', '2', '127', '128', '-128', '-129', '255', '256', '32767', '32768', '-32768', '-32769', '65535',
     '65536', '2147483647', '2147483648', '-2147483648', '-2147483649', '4294967295', '4294967296', '9223372036854775807', '9223372036854775808',
     '-9223372036854775808', '-9223372036854775809', '18446744073709551615', '18446744073709551616', '-0000', '+00001', '1e400', '1e-400',
-    '3.5e38', '1e39', '0.1', '1e-7', '1e6', '1e21', '123456.789', '0.000001', '1.5e300', '12345678901234567890.123456789',
+    '3.5e38', '1e39', '0.1', '1e-7', '0.0000001', '0.00000001234', '-0.0000005', '1E-7', '1E+3', '1e6', '1e21', '123456.789', '0.000001', '1.5e300', '12345678901234567890.123456789',
     '0A', '0a1B', 'A', 'G0', '0 A', 'FFFF', 'abcd==', 'YQ==', 'YWI=', 'YWJj', 'Y Q = =', 'YQ=', 'YR==', 'YWJ=', 'YWJj YWJj', '====', 'YQ', 'a', 'ab',
     'a-b', 'en', 'en-US', 'en-', '-en', 'abcdefghi', 'en-abcdefghi', 'x-1', '1x', 'a:b', ':a', 'a:', 'a:b:c', '_a', '-a', '.a', 'a.b', 'a b', 'é',
     'a·', '·a', '×', 'a×', 'aé', 'xml:lang', '1a', 'a1',
@@ -297,6 +325,16 @@ def canonical_grid(tier, seed):
             elif tn == 'hexBinary':
                 if c != O.normalise(tn, s).upper():
                     bad('xs:hexBinary: string() is not the upper-case form', type=tn, s=s, canonical=c)
+    # decimals produced by arithmetic (Python may hold them with an exponent)
+    for e in ["xs:decimal('1') div xs:decimal('0.001')", "xs:decimal(1e3)", "1000000000000000000000.0 * 10", "xs:decimal(1e21)", "xs:decimal(1e-7)",
+              "0.00001 * 0.001", "xs:decimal('100') * 1", "xs:decimal(xs:float('1e10'))", "10 div 4", "-(0.0)"]:
+        n += 1
+        st, text = _xp('3.1', f'string({e})')
+        st2, v = _xp('3.1', e)
+        if st != 'ok' or st2 != 'ok':
+            bad('xs:decimal: string() of an arithmetic result raises', expr=e, got=repr((st, text))[:80])
+        elif O.in_lexical_space('decimal', text) is not True or decimal.Decimal(text) != v or text != O.decimal_to_string(v):
+            bad('xs:decimal: string() of an arithmetic result is not the canonical representation', expr=e, canonical=text)
     # equal values with different lexical forms hash alike
     pairs = [('hexBinary', '0a1b', '0A1B'), ('decimal', '1.0', '1'), ('decimal', '+01.50', '1.5'), ('integer', '+1', '1'), ('double', '1e0', '1'),
              ('float', '1.0', '1'), ('base64Binary', 'Y Q = =', 'YQ=='), ('dateTime', '2000-01-01T24:00:00', '2000-01-02T00:00:00'),
@@ -325,3 +363,180 @@ def _replay_canonical(f):
 
 
 BOUNDED.append(Bounded('canonical_string_fixed_point_and_hash', canonical_grid, _replay_canonical))
+
+
+# ---- cast / castable / constructor agreement and the F&O casting table ------------------------------------
+CAST_SOURCES = {
+    'untypedAtomic': ["xs:untypedAtomic('1')", "xs:untypedAtomic('abc')", "xs:untypedAtomic('2000-01-01')", "xs:untypedAtomic('P1Y')",
+                      "xs:untypedAtomic('true')", "xs:untypedAtomic('0A')", "xs:untypedAtomic('1.5')", "xs:untypedAtomic(' 7 ')",
+                      "xs:untypedAtomic('1_0')", "xs:untypedAtomic('a:b')", "xs:untypedAtomic('-INF')"],
+    'string': ["concat('a:', 'b')", "'1'", "'abc'", "' true '", "'1.5'", "'INF'", "'2000-01-01T00:00:00'", "'a:b'", "'YQ=='", "'1e3'", "''", "'300'", "'-1'", "'P1M'",
+               "'--02-30'", "'24:00:00'", "'nan'", "'1_0'", "'0x1'", "'+INF'"],
+    'float': ["xs:float('1.5')", "xs:float('NaN')", "xs:float('-INF')", "xs:float('0')", "xs:float('1e10')", "xs:float('-0')", "xs:float('-3.7')"],
+    'double': ["1.5e0", "0e0", "xs:double('NaN')", "xs:double('INF')", "1e300", "-3.7e0", "1e20", "-0e0", "255e0", "256e0", "0.1e0", "1e-7"],
+    'decimal': ["1.5", "0.0", "-3.7", "100.0", "12345678901234567890.5", "127.9", "-128.9", "0.000001"],
+    'integer': ["0", "1", "-1", "255", "256", "2147483648", "10000000000000000000000", "-129", "xs:byte(5)", "xs:unsignedShort(65535)",
+                "xs:negativeInteger(-3)", "xs:long(-9223372036854775808)"],
+    'duration': ["xs:duration('P1Y2M3DT4H')", "xs:duration('P1Y')", "xs:duration('PT1H')", "xs:duration('-P2M1D')"],
+    'yearMonthDuration': ["xs:yearMonthDuration('P14M')", "xs:yearMonthDuration('-P1Y')", "xs:yearMonthDuration('P0M')"],
+    'dayTimeDuration': ["xs:dayTimeDuration('P1DT1H')", "xs:dayTimeDuration('-PT30S')", "xs:dayTimeDuration('PT0.5S')"],
+    'dateTime': ["xs:dateTime('2000-02-29T13:14:15.5+01:00')", "xs:dateTime('1999-12-31T24:00:00')", "xs:dateTime('-0044-03-15T00:00:00Z')",
+                 "xs:dateTime('2001-01-01T00:00:00-05:00')"],
+    'time': ["xs:time('13:14:15Z')", "xs:time('24:00:00')", "xs:time('01:02:03.25-08:00')"],
+    'date': ["xs:date('2000-02-29+01:00')", "xs:date('2001-12-31')", "xs:date('-0001-01-01Z')"],
+    'gYearMonth': ["xs:gYearMonth('2000-02Z')"], 'gYear': ["xs:gYear('2000')", "xs:gYear('-0100+02:00')"], 'gMonthDay': ["xs:gMonthDay('--02-29')"],
+    'gDay': ["xs:gDay('---31Z')"], 'gMonth': ["xs:gMonth('--12')"],
+    'boolean': ["true()", "false()"],
+    'base64Binary': ["xs:base64Binary('YWJj')", "xs:base64Binary('')", "xs:base64Binary('YQ==')",
+                     "xs:base64Binary('" + __import__('base64').b64encode(bytes(range(90))).decode() + "')"],
+    'hexBinary': ["xs:hexBinary('0a1B')", "xs:hexBinary('')", "xs:hexBinary('" + bytes(range(90)).hex() + "')"],
+    'anyURI': ["xs:anyURI('http://a/b')", "xs:anyURI('1')", "xs:anyURI('')"],
+    'QName': ["xs:QName('a:b')", "xs:QName('c')"],
+}
+DERIVED_SOURCES = {'string': ["xs:token('a b')", "xs:NCName('a')", "xs:language('en')", "xs:normalizedString(' 1 ')", "xs:ID('x1')"]}
+
+
+def _primitive(tn):
+    if tn in O.INT_BOUNDS:
+        return 'integer'
+    if tn in ('normalizedString', 'token', 'language', 'NMTOKEN', 'Name', 'NCName', 'ID', 'IDREF', 'ENTITY'):
+        return 'string'
+    if tn == 'dateTimeStamp':
+        return 'dateTime'
+    return tn
+
+
+def _xp(version, expr):
+    p = PARSERS[version](namespaces=NS, xsd_version='1.1')
+    ctx = XPathContext(root=None, item=1) if version != '1.0' else None
+    try:
+        return 'ok', p.parse(expr).evaluate(ctx)
+    except ElementPathError as e:
+        return 'err', (e.code or '').split(':')[-1]
+    except Exception as e:     # noqa - a non XPath error escaping is itself reported
+        return 'crash', type(e).__name__
+
+
+def _num(x):
+    return isinstance(x, (int, float, decimal.Decimal)) and not isinstance(x, bool)
+
+
+def _expected_value(version, sp, src_expr, tn, got):
+    """None when the oracle has no opinion, else a message when the value is wrong."""
+    tp = _primitive(tn)
+    st, sv = _xp(version, src_expr)
+    if st != 'ok':
+        return None
+    if tp in ('string', 'untypedAtomic') and tn in ('string', 'untypedAtomic'):
+        st2, text = _xp(version, f'string({src_expr})')
+        if st2 == 'ok' and str(got) != text:
+            return f'cast to xs:{tn} gives {str(got)!r}, string() gives {text!r}'
+        return None
+    if sp in ('float', 'double', 'decimal', 'integer'):
+        if tp == 'integer' and _num(got):
+            if int(got) != math.trunc(sv):
+                return f'numeric -> xs:{tn} is not truncation: {got!r}'
+        elif tp == 'decimal' and _num(got):
+            want = decimal.Decimal(sv) if not isinstance(sv, decimal.Decimal) else sv
+            if decimal.Decimal(got) != want:
+                return f'numeric -> xs:decimal changes the value: {got!r}'
+        elif tp == 'double' and isinstance(got, float):
+            if not (got == float(sv) or (math.isnan(got) and math.isnan(float(sv)))):
+                return f'numeric -> xs:double changes the value: {got!r}'
+        elif tp == 'boolean':
+            want = not (sv == 0 or (isinstance(sv, float) and math.isnan(sv)))
+            if got is not want:
+                return f'numeric -> xs:boolean gives {got!r}'
+    elif sp == 'boolean' and tp in ('integer', 'decimal', 'double', 'float') and _num(got):
+        if got != (1 if sv else 0):
+            return f'boolean -> xs:{tn} gives {got!r}'
+    elif sp in ('hexBinary', 'base64Binary') and tp in ('hexBinary', 'base64Binary'):
+        import base64
+        raw = bytes.fromhex(str(sv)) if sp == 'hexBinary' else base64.b64decode(str(sv))
+        want = raw.hex().upper() if tp == 'hexBinary' else base64.b64encode(raw).decode()
+        if str(got) != want:
+            return f'{sp} -> {tn}: octets not preserved: {str(got)[:40]!r}... expected {want[:40]!r}...'
+    elif sp in ('dateTime', 'date') and tp in ('dateTime', 'date', 'time', 'gYearMonth', 'gYear', 'gMonthDay', 'gDay', 'gMonth'):
+        import re as _re
+        st2, text = _xp(version, f'string({src_expr})')
+        m = _re.fullmatch(r'(-?[0-9]{4,})-([0-9]{2})-([0-9]{2})(?:T([0-9:.]+))?(Z|[+-][0-9:]+)?', text if st2 == 'ok' else '')
+        if m:
+            y, mo, d, t, tz = m.groups()
+            tz = tz or ''
+            want = {'dateTime': f"{y}-{mo}-{d}T{t or '00:00:00'}{tz}", 'date': f'{y}-{mo}-{d}{tz}', 'time': f"{t or ''}{tz}",
+                    'gYearMonth': f'{y}-{mo}{tz}', 'gYear': f'{y}{tz}', 'gMonthDay': f'--{mo}-{d}{tz}', 'gDay': f'---{d}{tz}', 'gMonth': f'--{mo}{tz}'}[tp]
+            if str(got) != want:
+                return f'{sp} -> {tn}: components not preserved: {str(got)!r}, expected {want!r}'
+    elif sp in ('duration', 'yearMonthDuration', 'dayTimeDuration') and tp in ('duration', 'yearMonthDuration', 'dayTimeDuration'):
+        wm = sv.months if tp != 'dayTimeDuration' else 0
+        ws = sv.seconds if tp != 'yearMonthDuration' else 0
+        if got.months != wm or got.seconds != ws:
+            return f'{sp} -> {tn}: (months, seconds) = ({got.months}, {got.seconds}), expected ({wm}, {ws})'
+    return None
+
+
+def cast_grid(tier, seed):
+    fam, n = {}, 0
+
+    def bad(k, **w):
+        fam.setdefault(k, []).append(w)
+    for version in ('2.0', '3.0', '3.1'):
+        for sp, exprs in CAST_SOURCES.items():
+            for e in exprs + DERIVED_SOURCES.get(sp, []):
+                if _xp(version, e)[0] != 'ok':
+                    continue
+                for tn in TYPE_NAMES:
+                    if tn == 'dateTimeStamp' and version == '2.0':
+                        continue
+                    n += 1
+                    a = _xp(version, f'({e}) castable as xs:{tn}')
+                    b = _xp(version, f'({e}) cast as xs:{tn}')
+                    c = _xp(version, f'xs:{tn}({e})')
+                    w = dict(version=version, source=e, target=tn)
+                    if 'crash' in (a[0], b[0], c[0]):
+                        bad(f'cast to xs:{tn}: a Python exception escapes', **w, got=[a, repr(b)[:80], repr(c)[:80]])
+                        continue
+                    if a[0] != 'ok' or not isinstance(a[1], bool):
+                        if not (tn == 'QName' and version == '2.0'):
+                            bad('castable does not return a boolean', **w, got=repr(a)[:80])
+                        continue
+                    if a[1] != (b[0] == 'ok'):
+                        bad(f'castable as xs:{_primitive(tn)} family disagrees with cast as', **w, castable=a[1], cast=repr(b)[:80])
+                    if (b[0] == 'ok') != (c[0] == 'ok'):
+                        if not (tn == 'QName' and version == '2.0'):       # 2.0: only literals cast to QName, the constructor differs
+                            bad(f'cast as xs:{_primitive(tn)} family disagrees with the constructor function on success', **w,
+                                cast=repr(b)[:80], ctor=repr(c)[:80])
+                    elif b[0] == 'ok' and not _same(b[1], c[1]):
+                        bad(f'cast as xs:{_primitive(tn)} family and the constructor function produce different values', **w,
+                            cast=repr(b[1])[:80], ctor=repr(c[1])[:80])
+                    rule = O.cast_allowed(sp, _primitive(tn), version)
+                    if rule == 'N' and b[0] == 'ok':
+                        bad(f'casting table: xs:{sp} -> xs:{_primitive(tn)} is not allowed but succeeds', **w, cast=repr(b[1])[:80])
+                    elif rule == 'N' and b[0] == 'err' and b[1] != 'XPTY0004':
+                        bad(f'casting table: forbidden cast raises {b[1]} instead of XPTY0004', **w)
+                    elif rule == 'Y' and tn == _primitive(tn) and b[0] != 'ok':
+                        bad(f'casting table: xs:{sp} -> xs:{tn} always succeeds but raises', **w, cast=repr(b)[:80])
+                    elif rule == 'M' and sp in ('string', 'untypedAtomic') and tn != 'QName':
+                        _, sv = _xp(version, e)
+                        text = sv if isinstance(sv, str) else sv.value
+                        spec = O.in_lexical_space(tn, O.normalise(tn, text), '1.1')
+                        if spec is not None and spec != (b[0] == 'ok'):
+                            bad(f"cast from a string to xs:{_primitive(tn)} family {'rejects a valid' if spec else 'accepts an invalid'} lexical form",
+                                **w, cast=repr(b)[:80])
+                    if b[0] == 'ok':
+                        msg = _expected_value(version, sp, e, tn, b[1])
+                        if msg:
+                            bad(f'value not preserved: xs:{sp} -> xs:{_primitive(tn)} family', **w, detail=msg)
+    fails = [{'key': k, 'items': it[:6], 'count': len(it), 'what': f'{k}: e.g. {it[0]}'} for k, it in fam.items()]
+    return {'evaluations': n, 'distinct': n, 'exhaustive': False,
+            'scope': f'{sum(map(len, CAST_SOURCES.values())) + 5} source expressions (all primitive types) x {len(TYPE_NAMES)} target types x XPath 2.0/3.1: '
+            'castable / cast / constructor agree on success and value; F&O 3.1 19.1 casting table (N raises XPTY0004, Y succeeds); value oracles for '
+            'numeric, boolean, binary, date/time component and duration casts; string sources against the lexical-space oracle', 'failures': fails}
+
+
+def _replay_cast(f):
+    r = cast_grid('quick', 0)
+    return all(x['key'] != f['key'] for x in r['failures'])
+
+
+BOUNDED.append(Bounded('cast_castable_constructor_grid', cast_grid, _replay_cast))
